@@ -412,4 +412,19 @@ theorem releaseLoop_spec (a : Addr) : ∀ (funds : Coins) (s s' : State), (∀ p
           · left; simp [hc]
         · exact Or.inr hl
 
+/-- releasing holds of `a` leaves every other account's holds alone -/
+theorem releaseLoop_other (a : Addr) : ∀ (funds : Coins) (s s' : State), releaseLoop s a funds = .ok s' →
+    ∀ a' d', a' ≠ a → s'.hold a' d' = s.hold a' d'
+  | [], s, s', h => by
+    simp [releaseLoop] at h; subst h; intros; rfl
+  | (d, x) :: rest, s, s', h => by
+    simp only [releaseLoop] at h
+    split_ifs at h with h0 h1
+    · exact releaseLoop_other a rest s s' h
+    · intro a' d' hne
+      rw [releaseLoop_other a rest _ s' h a' d' hne]
+      simp only [State.hold, Ledger.bal_debit, Coins.amountOf_cons, Coins.amountOf_nil]
+      have : ¬ (a = a') := fun e => hne e.symm
+      simp [this]
+
 end PvProofs.Lemmas.Lock
